@@ -69,13 +69,30 @@ def _worker(args):
     solve.STATS.__init__()
     core.ST.reset()
     t0 = time.time()
+    import signal
+
+    class _Timeout(BaseException):
+        pass
+
+    def _alarm(sig, frm):
+        raise _Timeout()
+    limit = int(cfg.get("timeout", os.environ.get("VERIF_CFG_TIMEOUT", "600")))
+    signal.signal(signal.SIGALRM, _alarm)
+    signal.alarm(limit)
     try:
         out = mod.run_config(cfg)
+        signal.alarm(0)
         d = out.as_dict() if isinstance(out, Result) else out
         d["wall_s"] = round(time.time() - t0, 3)
         d["error"] = None
         return d
+    except _Timeout:
+        return dict(cfg=cfg, error=None, obligations=1, discharged=0,
+                    unknown=[{"what": "configuration exceeded its %ds time limit (inconclusive)" % limit}], candidates=[],
+                    samples=[], fidelity=0, fidelity_fail=[], functions=[], notes=[], paths=0,
+                    stats=solve.STATS.as_dict(), wall_s=round(time.time() - t0, 3))
     except BaseException as e:  # noqa  (engine-level failure of this config)
+        signal.alarm(0)
         return dict(cfg=cfg, error="%s: %s" % (type(e).__name__, e), trace=traceback.format_exc()[-3000:],
                     obligations=0, discharged=0, unknown=[], candidates=[], samples=[], fidelity=0,
                     fidelity_fail=[], functions=[], notes=[], paths=0, stats=solve.STATS.as_dict(),
@@ -155,7 +172,7 @@ def finish(mod, tier, seed, cfgs, results, t0):
         stats.bound_hits += st["bound_hits"]
         stats.decisions += st["decisions"]
         stats.branch_queries += st["branch_queries"]
-        if d["obligations"] and (st["queries"]["unsat"] + st["queries"]["sat"]) > 0:
+        if d["obligations"] and (st["queries"]["unsat"] + st["queries"]["sat"] + st["rewriter_normalised"]) > 0:
             nontrivial += 1
         for f in d["functions"]:
             functions[(f["function"], f["file"])] = f
@@ -238,7 +255,7 @@ def finish(mod, tier, seed, cfgs, results, t0):
             "evaluations": len(results),
             "distinct_nontrivial": nontrivial,
             "rule": "one evaluation = one configuration (shape/structure/schedule) whose *values* are all symbolic; "
-                    "non-trivial = at least one obligation of that configuration went to the SMT solver with free variables; "
+                    "non-trivial = at least one obligation of that configuration had free variables and was decided by z3 (nlsat query, or its polynomial rewriter reducing the residue to 0); "
                     "configurations are distinct by construction (enumerated, not sampled with repetition)",
             "states": max(paths, 1),
             "transitions": max(stats.decisions + tot_ob, 1),
